@@ -33,9 +33,22 @@ TSAN_OPTS = ("halt_on_error=0:exitcode=0:report_signal_unsafe=0:history_size=4:s
              "suppress_equal_stacks=0:suppress_equal_addresses=0")
 
 
-def harness_env(replay=False):
+# Harnesses whose oracle (not the sanitizer) is the main detector run without
+# AddressSanitizer's quarantine: freed blocks are handed out again at once, as
+# with the real allocator, so that state keyed by the address of a short-lived
+# object (a cache that remembers "the same object") meets address re-use. The
+# option is part of the harness' environment in the batch and in every replay.
+NO_QUARANTINE = {"c15"}
+
+
+def harness_env(replay=False, exe=None):
     env = dict(os.environ)
     env["ASAN_OPTIONS"] = ASAN_REPLAY if replay else ASAN_BATCH
+    if exe is not None and os.path.basename(exe) in NO_QUARANTINE:
+        env["ASAN_OPTIONS"] = re.sub(r"quarantine_size_mb=\d+", "quarantine_size_mb=0", env["ASAN_OPTIONS"])
+        env["ASAN_OPTIONS"] = re.sub(r"thread_local_quarantine_size_kb=\d+", "thread_local_quarantine_size_kb=0", env["ASAN_OPTIONS"])
+        if "quarantine_size_mb" not in env["ASAN_OPTIONS"]:
+            env["ASAN_OPTIONS"] += ":quarantine_size_mb=0:thread_local_quarantine_size_kb=0"
     env["UBSAN_OPTIONS"] = "print_stacktrace=1:halt_on_error=1"
     env["TSAN_OPTIONS"] = TSAN_OPTS
     env["ASAN_SYMBOLIZER_PATH"] = "/usr/bin/llvm-symbolizer-14"
@@ -105,7 +118,7 @@ def run_plan(exe, plan, timeout=120, trace=False):
     cmd = [exe, "run", path] + (["--trace"] if trace else [])
     try:
         p = subprocess.run(cmd, capture_output=True, text=True, errors="replace", timeout=timeout,
-                           env=harness_env(replay=True))
+                           env=harness_env(replay=True, exe=exe))
     except subprocess.TimeoutExpired:
         return {"outcome": "INFRA", "oracle": "wall-clock", "detail": "harness did not finish in %ds" % timeout, "hash": ""}, ""
     finally:
@@ -123,7 +136,7 @@ def run_plan(exe, plan, timeout=120, trace=False):
 
 
 def gen_plan(exe, seed, tier):
-    p = subprocess.run([exe, "gen", str(seed), tier], capture_output=True, text=True, env=harness_env())
+    p = subprocess.run([exe, "gen", str(seed), tier], capture_output=True, text=True, env=harness_env(exe=exe))
     return json.loads(p.stdout)
 
 
@@ -162,7 +175,7 @@ class Worker(threading.Thread):
             errpath = os.path.join(RUN_DIR, "%s-stderr-%d" % (pool.name, self.wid))
             with open(errpath, "w") as errf:
                 proc = subprocess.Popen(cmd, stdout=subprocess.PIPE, stderr=errf, text=True, errors="replace",
-                                        env=harness_env())
+                                        env=harness_env(exe=pool.exe))
                 # wall-clock watchdog: only ever turns a stalled worker into an
                 # INFRA diagnosis (exit 2), never into a violation
                 hung = {"v": False}
